@@ -87,6 +87,18 @@ def gen_plan(rng, i: int, tier: str) -> dict:
             plan["ops"].append({"op": "unprotect", "fl": "sync", "net": "online", "cache": "fresh",
                                 "blob": {"rk": rki, "sid": sid_m if member else sid_o, "pos": pos, "mode": rng.choice(("nonce", "nonce", "pub")),
                                          "trailing": rng.random() < 0.3, "data": rng.choice((0, 1, 17, 64)), "domain": dn or "x.test", "forest": fn}})
+    if r2.random() < 0.08:
+        # one cache shared by two principals of a process: a caller who only ever receives the group public key protects, then an
+        # authorised caller unprotects that very blob on the same cache - nothing the first call left behind can stand in for the
+        # seed key, the key the blob names must be requested
+        plan["ops"] = [{"op": "identity", "sids": []},
+                       {"op": "protect", "fl": "sync", "sid": sid_m, "rk": rng.choice((None, 0)), "net": "online", "data": 16, "cache": "shared", "domain_name": "corp.example"},
+                       {"op": "identity", "sids": [sid_m]},
+                       {"op": "unprotect", "fl": "sync", "net": "online", "cache": "shared", "blob": {"from_op": 1}}]
+        plan["concurrent"] = False
+        plan["shared_cache_two_principals"] = True
+        plan.pop("conn_flap", None)  # (one fault family per plan: the second call needs the first one's blob)
+        return plan
     if r2.random() < 0.2 and len(plan["ops"]) >= 2:
         # the caller passes no cache at all (the documented default): every call still starts from nothing
         for o in plan["ops"]:
@@ -144,6 +156,8 @@ def judge_one(plan, tr: P.Trace, fl: str):
         probes["no_cache_argument"] = 1
     if plan["dc"].get("after_response"):
         probes["connection_aborted_after_reply"] = 1
+    if plan.get("shared_cache_two_principals"):
+        probes["shared_cache_two_principals"] = 1
 
     def V(clause, cond, detail, ot=None):
         et = ""
@@ -159,6 +173,8 @@ def judge_one(plan, tr: P.Trace, fl: str):
         if ot.op["op"] not in ("protect", "unprotect"):
             continue
         gks = ot.getkeys
+        if ot.op["op"] == "unprotect" and "from_op" in ot.op["blob"] and ot.blob_in is None:
+            continue  # (the earlier call that should have made this blob failed and was judged there)
         if slow and ot.outcome.kind == "raise" and isinstance(ot.outcome.exc, TimeoutError):
             probes["timed_out_on_slow_dc"] = 1  # (a read timeout is policy, not fidelity; the flavours must still agree, see below)
             continue
@@ -198,6 +214,11 @@ def judge_one(plan, tr: P.Trace, fl: str):
         # EPM hop: the ept_map request of this op asked for ISD_KEY over TCP (RefDC only answers those), second connect went to the mapped port
         if ot.op["op"] == "unprotect":
             spec = ot.blob_spec
+            if spec is None:  # a blob made earlier in this history by the library: what it names is read with the independent parser
+                pb = cms.parse_blob(ot.blob_in)
+                kid_ = pb["key_identifier"]
+                spec = {"sid": pb["sid"], "rk": [r_.root_key_id for r_ in tr.root_keys].index(kid_["root_key_id"]), "pos": [kid_["l0"], kid_["l1"], kid_["l2"]],
+                        "mode": "pub" if kid_["flags"] & 1 else "nonce"}
             rk = tr.root_keys[spec["rk"]]
             want = (dtyp.target_sd(spec["sid"]), rk.root_key_id, *spec["pos"])
             got = (g.get("sd"), g.get("root_key_id"), g.get("l0"), g.get("l1"), g.get("l2"))
@@ -287,7 +308,7 @@ class C17(common.Check):
             "current, corner, previous-L0 and DC-future positions, nonce and public-key mode, both layouts) against the reference DC with "
             "per-plan knobs: 4 hashes x {DH,P256,P384}, SIDs of 1..15 sub-authorities, domain/forest names 0..40 chars incl. non-ASCII, "
             "GKDI port, padding policy, header signing, envelope shape (L2 omitted at 31), DC clock skew, PRNG segmentation and latencies, "
-            "DNS discovery, a DC whose PDUs arrive after pauses of 0.5..6 s, services that abort or close the connection right after every complete Response, a key service port that refuses the first connection attempt of every operation (failing with that error is accepted, asking for another key is not), security context (StubCtx 1..3 legs / real NTLM / real Negotiate). Each plan runs once per flavour; request log, "
+            "DNS discovery, a DC whose PDUs arrive after pauses of 0.5..6 s, one cache shared by a principal who only receives the public key (protect) and an authorised one (unprotect of that blob), services that abort or close the connection right after every complete Response, a key service port that refuses the first connection attempt of every operation (failing with that error is accepted, asking for another key is not), security context (StubCtx 1..3 legs / real NTLM / real Negotiate). Each plan runs once per flavour; request log, "
             "results and sync-vs-async transcripts are judged; in 30% of the plans the async execution runs all operations at once (the "
             "conversations then interleave under the PRNG scheduler and are compared per connection) and a third execution runs them as "
             "caller threads using the sync API, pre-empted at PRNG-chosen line events inside dpapi_ng. Non-trivial = every plan; distinct = distinct plan.")
@@ -298,7 +319,7 @@ class C17(common.Check):
     assumptions = ["Kerberos is not simulated", "loopback TCP of the statement is replaced by the simulated transport",
                    "ept_map max_towers / handle / referent ids and alloc_hint are recorded, not judged"]
     required_fired = ("unprotect_ok", "protect_seed", "protect_public", "future_key", "non_member_unprotect", "dns", "real_ctx", "l2_omitted",
-                      "pos_corner", "prev_l0", "blob_pub", "concurrent_ops", "thread_ops", "thread_overlap", "slow_dc", "no_cache_argument", "key_port_refused_once", "failed_with_connection_refused", "connection_aborted_after_reply")
+                      "pos_corner", "prev_l0", "blob_pub", "concurrent_ops", "thread_ops", "thread_overlap", "slow_dc", "no_cache_argument", "key_port_refused_once", "failed_with_connection_refused", "connection_aborted_after_reply", "shared_cache_two_principals")
 
     def cases(self, tier, seed):
         rng = prng.stream(seed, "C17")
